@@ -143,15 +143,15 @@ Section NoUnmEval.
     Qed.
 
     (* Environment::insert: the only write; it panics on a shared frame, never on an owned one *)
-    Lemma bind_value_nu : forall c1 x v, wf c1 -> fst (bind_value c1 x v) <> Unmodelled.
+    Lemma bind_value_nu : forall n0 c1 x v, wf c1 -> fst (bind_value n0 c1 x v) <> Unmodelled.
     Proof.
-      intros c1 x v Hw. unfold bind_value.
+      intros n0 c1 x v Hw. unfold bind_value.
       destruct (insert_head (snd c1) x v) eqn:E; [discriminate|].
       exfalso. eapply insert_head_owned; eauto.
     Qed.
-    Lemma bind_value_keeps : forall c1 x v r c', bind_value c1 x v = (r, c') -> wf c1 -> wf c'.
+    Lemma bind_value_keeps : forall n0 c1 x v r c', bind_value n0 c1 x v = (r, c') -> wf c1 -> wf c'.
     Proof.
-      intros c1 x v r c' H Hw. unfold bind_value in H.
+      intros n0 c1 x v r c' H Hw. unfold bind_value in H.
       destruct (insert_head (snd c1) x v) eqn:E; inversion H; subst; unfold wf; cbn [snd].
       - eapply insert_head_keeps_owned; eauto.
       - exact Hw.
